@@ -14,7 +14,8 @@
      EJoin rid r                    JoinGroup reply: ok generation member role (0 follower, 1 leader, 2 leader whose member
                                     metadata subscribes nothing: generate_assignments raises AssertionError) / failure class
      EParts rid r                   client._load_topic_partitions (leader): ok / ok-but-a-topic-missing / failure class
-     ESync rid r                    SyncGroup reply: ok assignment / undecodable (non-Kafka exc.) / undecodable (ProtocolError) / failure
+     ESync rid r                    SyncGroup reply: ok assignment / undecodable (non-Kafka exc.) / undecodable (ProtocolError) / failure /
+                                    ok assignment but the Consumer constructor raises for the (n+1)-th consumer created (on_join_complete :845-857)
      ETick                          the reactor fires the heartbeat LoopingCall
      EHbReply rid r                 Heartbeat reply
      EFire id                       the reactor fires join_and_sync DelayedCall number id (rejoin timer or coordinator retry)
@@ -42,7 +43,7 @@
 
    Outside the model: group-assignment computation (model M5 / C15: only "leader sends assignments" is kept), request
    encodings, log output, a client whose methods raise synchronously or return already-fired Deferreds, Consumer
-   constructors / start() / shutdown() that raise, user code cancelling the Deferred returned by stop(). *)
+   start() / shutdown() that raise or return already-fired Deferreds, user code cancelling the Deferred returned by stop(). *)
 From AV Require Import Base.Util.
 
 Inductive ekind := KRebalance | KCna | KNotCoord | KIllGen | KInvGroup | KUnkMember | KInconsistent | KTimeout
@@ -134,7 +135,8 @@ Inductive lookup_res := LBroker | LNone | LFail (k : ekind).
 Inductive simple_res := ROk | RFail (k : ekind).
 Inductive join_res := JOk (gen mem role : Z) | JFail (k : ekind).
 Inductive parts_res := POk | PMissing | PFail (k : ekind).
-Inductive sync_res := SOk (asg : list (Z * Z)) | SBadNonKafka | SBadKafka | SFail (k : ekind).
+Inductive sync_res := SOk (asg : list (Z * Z)) | SBadNonKafka | SBadKafka | SFail (k : ekind)
+                     | SOkRaise (asg : list (Z * Z)) (n : Z).   (* as SOk, but constructing the (n+1)-th partition consumer raises (e.g. bad consumer_kwargs) *)
 
 Inductive event :=
 | EStart | EStop
@@ -380,6 +382,9 @@ Fixpoint start_consumers (tps : list (Z * Z)) : act :=
   end.
 Definition on_join_complete (asg : list (Z * Z)) : act := fun s =>
   if is_group s then (if stop_requested s then (s, []) else start_consumers (group_by_topic asg) s) else (s, []).
+(* does `Consumer(...)` raise for the (n+1)-th consumer of this assignment?  (only a ConsumerGroup that is not stopping builds any) *)
+Definition ctor_raises (asg : list (Z * Z)) (n : Z) (s : state) : bool :=
+  is_group s && negb (stop_requested s) && (0 <=? n) && (n <? Z.of_nat (length (group_by_topic asg))).
 
 (* ---- event handlers ---- *)
 Definition awaits (ph : gphase) (g : gen) : bool :=
@@ -447,6 +452,11 @@ Definition on_sync (rid : Z) (r : sync_res) : act :=
         else match r with
              | SOk asg => (upd (set_cur_assign asg) ;; reset_heartbeat_timer ;;                         (* :513-514 *)
                            upd (set_rejoin_needed false) ;; on_join_complete asg ;; gen_end) s          (* :515-518 *)
+             | SOkRaise asg n =>
+                 if ctor_raises asg n s then                                   (* :845 raises inside the loop: the consumers built so far stay *)
+                   (upd (set_cur_assign asg) ;; reset_heartbeat_timer ;; upd (set_rejoin_needed false) ;;
+                    start_consumers (firstn (Z.to_nat n) (group_by_topic asg)) ;; gen_fail KNonKafka) s   (* exception escapes, :453-457 logs it *)
+                 else (upd (set_cur_assign asg) ;; reset_heartbeat_timer ;; upd (set_rejoin_needed false) ;; on_join_complete asg ;; gen_end) s
              | SBadNonKafka => gen_fail KNonKafka s                                                     (* :513 raises *)
              | _ => gen_fail KOtherKafka s
              end
@@ -637,6 +647,7 @@ Fixpoint parse_events (fuel : nat) (l : list Z) : option (list event) :=
           | Some (ps, r') =>
               k (if x =? 0 then Some (ESync rid (SOk ps)) else if x =? 1 then Some (ESync rid SBadNonKafka)
                  else if x =? 2 then Some (ESync rid SBadKafka)
+                 else if (10 <=? x) && (x <? 100) then Some (ESync rid (SOkRaise ps (x - 10)))
                  else option_map (fun e => ESync rid (SFail e)) (fail_of_Z x)) r'
           | None => None
           end
